@@ -655,7 +655,8 @@ open WuffsVerif.Token WuffsVerif.Gen.C11
 attribute [local irreducible] checkAssignLHS terminatesList typeInnermost stripArrays
   asSmallPositiveInt256 isChooseCPUArch validConstName containsDoubleUnderscore isStatusMessageTok
 
-macro_rules | `(tactic| good_leaf) => `(tactic| apply_assumption)
+macro_rules | `(tactic| good_leaf) => `(tactic| exact (by assumption : ∀ dc, Good (pBlock _ _ _ _ dc)) _)
+macro_rules | `(tactic| good_leaf) => `(tactic| exact (by assumption : ∀ l a, Good (pIterateBlock _ _ _ _ l a)) _ _)
 
 theorem good_loopsPush (label : Nat) : Good (loopsPush label) := by
   unfold loopsPush; good_auto
